@@ -4,6 +4,7 @@ import (
 	"fmt"
 	"go/constant"
 	"go/token"
+	"go/types"
 	"math/big"
 	"strconv"
 	"strings"
@@ -90,8 +91,8 @@ func runC04(e *Env) {
 	}
 	// … and the member loop reads the two members as written: the arms, the duplicate tests, the loop discipline (no
 	// foreign test, no rewriting of a decoded member) and the skipper (C12.keys)
-	e.As(map[string]string{"C12.keys": "C04.reader"}, func() { ruleC12Arms(e) })
-	e.S.Floor("C04.reader", 23)
+	e.As(map[string]string{"C12.keys": "C04.reader"}, func() { ruleC12Keys(e) })
+	e.S.Floor("C04.reader", 44)
 }
 
 // segs flattens an abstract byte-sequence value built by append / strconv.AppendUint into readable segments.
@@ -145,6 +146,7 @@ func segs(v pred.Val) ([]string, bool) {
 }
 
 func ruleC04Forms(e *Env) {
+	c04StringFormEvaluated = false
 	const rule = "C04.forms"
 	mj := e.Method(rule, "size", "Size", "MarshalJSON")
 	mt := e.Method(rule, "size", "Size", "marshalText")
@@ -273,6 +275,14 @@ func ruleC04Forms(e *Env) {
 			}
 		case !askedStr:
 			e.S.Bad(rule, site, construct, "with the object form disabled MarshalJSON does not consult DisableMarshalJSONStringForm", e.Pos(mj), "")
+		case str == 1 && lf.Err == nil && stringFormSegs(lf.Out.Ret) != "":
+			// the string form built by appends: evaluated like the object form
+			if got := stringFormSegs(lf.Out.Ret); got == `"<marshalText#0(s)>"` {
+				c04StringFormEvaluated = true
+				e.S.Ok(rule, site, "string form", "object form disabled ⇒ '\"' + marshalText + '\"', built by appends", e.Pos(mj))
+			} else {
+				e.S.Bad(rule, site, "string form", fmt.Sprintf("the string form is %q, documented: the text of marshalText between two quotes", got), e.Pos(mj), "")
+			}
 		case str == 1: // string form: the quoting code is outside the abstract domain (C04.quote); the selection is what counts here
 			e.S.Ok(rule, site, "string form", "object form disabled ⇒ quoted marshalText (quoting: C04.quote)", e.Pos(mj))
 		default:
@@ -335,6 +345,22 @@ func maskedSym(sym string, mask int64) pred.Val {
 	return b
 }
 
+// c04StringFormEvaluated: ruleC04Forms has evaluated the string form's result (append chain); reset on every run.
+var c04StringFormEvaluated bool
+
+// stringFormSegs: the concatenation the (data, nil) result stands for, "" if it is not a readable append chain.
+func stringFormSegs(ret pred.Val) string {
+	t, _ := ret.(pred.Tuple)
+	if len(t) != 2 || t[1].String() != "nil" {
+		return ""
+	}
+	sg, ok := segs(t[0])
+	if !ok {
+		return ""
+	}
+	return strings.Join(sg, "")
+}
+
 // ruleC04Quote: MarshalJSON's string form is '"' + text + '"'.
 func ruleC04Quote(e *Env) {
 	const rule = "C04.quote"
@@ -343,9 +369,16 @@ func ruleC04Quote(e *Env) {
 		return
 	}
 	site := flow.FnName(mj)
+	if c04StringFormEvaluated {
+		for _, c := range []string{"text", "grow", "shift", "open quote", "result"} {
+			e.S.Ok(rule, site, c, "the string form is built by appends and evaluated as a whole (C04.render, string form): '\"' + text + '\"'", e.Pos(mj))
+		}
+		return
+	}
 	// idiom A: l := len(b); b = append(b, <2-byte constant ending in '"'>...); copy(b[1:l+1], b[:l]); b[0] = '"'; return b
 	var app, cp *ssa.Call
 	var st *ssa.Store
+	napp, ncp, nst := 0, 0, 0
 	for _, b := range mj.Blocks {
 		for _, in := range b.Instrs {
 			switch x := in.(type) {
@@ -355,20 +388,34 @@ func ruleC04Quote(e *Env) {
 					case "append":
 						if s, ok := flow.ConstString(x.Call.Args[1]); ok && strings.HasSuffix(s, `"`) {
 							app = x
+							napp++
 						}
 					case "copy":
 						cp = x
+						ncp++
 					}
 				}
 			case *ssa.Store:
 				if ia, ok := x.Addr.(*ssa.IndexAddr); ok {
-					if k, ok := flow.ConstInt(x.Val); ok && k == '"' {
-						if i, ok := flow.ConstInt(ia.Index); ok && i == 0 {
-							st = x
-						}
+					if sl, ok := ia.X.Type().Underlying().(*types.Slice); ok && types.Identical(sl.Elem().Underlying(), types.Typ[types.Byte]) {
+						st = x
+						nst++
 					}
 				}
 			}
+		}
+	}
+	if napp > 1 || ncp > 1 || nst > 1 {
+		// a second way of building the string form (a fast path beside the idiom): only one construction is read here
+		e.S.Unk(rule, site, "idiom", fmt.Sprintf("MarshalJSON holds %d quote-appending append(s), %d copy call(s) and %d element store(s); the shift idiom has one of each — a second construction of the string form is not read", napp, ncp, nst), e.Pos(mj))
+		return
+	}
+	if st != nil {
+		ia := st.Addr.(*ssa.IndexAddr)
+		k, okK := flow.ConstInt(st.Val)
+		i, okI := flow.ConstInt(ia.Index)
+		if !okK || k != '"' || !okI || i != 0 {
+			st = nil
 		}
 	}
 	if app == nil || cp == nil || st == nil {
@@ -427,9 +474,42 @@ func ruleC04Quote(e *Env) {
 		e.S.Ok(rule, site, "open quote", "'\"' stored at index 0 after the shift", e.posOf(st))
 	}
 	ret := false
+	var derives func(v ssa.Value, depth int) bool
+	derives = func(v ssa.Value, depth int) bool {
+		if v == text {
+			return true
+		}
+		if depth > 6 {
+			return false
+		}
+		switch x := v.(type) {
+		case *ssa.Slice:
+			return derives(x.X, depth+1)
+		case *ssa.ChangeType:
+			return derives(x.X, depth+1)
+		case *ssa.Convert:
+			return derives(x.X, depth+1)
+		case *ssa.Phi:
+			for _, ed := range x.Edges {
+				if derives(ed, depth+1) {
+					return true
+				}
+			}
+		case *ssa.Call:
+			if bi, ok := x.Call.Value.(*ssa.Builtin); ok && bi.Name() == "append" {
+				return derives(x.Call.Args[0], depth+1)
+			}
+		}
+		return false
+	}
 	for _, r := range flow.Returns(mj) {
 		if len(r.Results) == 2 && r.Results[0] == ssa.Value(app) && flow.IsNilConst(r.Results[1]) && (st.Block() == r.Block() || st.Block().Dominates(r.Block())) {
 			ret = true
+		} else if len(r.Results) == 2 && derives(r.Results[0], 0) {
+			// every return that hands back the text goes through the quoting
+			ret = false
+			e.S.Bad(rule, site, "result", "a return hands back the marshalled text other than as the buffer quoted by the idiom", e.posOf(r), "")
+			return
 		}
 	}
 	if ret {
